@@ -224,15 +224,18 @@ def _sum_mcp_between_temperature_boundaries(
     """Vectorized CP and rCP summation across temperature intervals."""
 
     def calc_active_matrix(streams: List[Stream], use_shifted: bool) -> np.ndarray:
-        t_min = np.array([s.t_min_star if use_shifted else s.t_min for s in streams])
-        t_max = np.array([s.t_max_star if use_shifted else s.t_max for s in streams])
+        # Stream bounds are put on the same grid as the interval temperatures (rounded to
+        # the tolerance), so that a stream counts in exactly the intervals it spans
+        dp = int(-math.log10(tol))
+        t_min = np.array([s.t_min_star if use_shifted else s.t_min for s in streams]).round(dp)
+        t_max = np.array([s.t_max_star if use_shifted else s.t_max for s in streams]).round(dp)
 
         lower_bounds = np.array(temperatures[1:])
         upper_bounds = np.array(temperatures[:-1])
 
         # Shape: (intervals, streams)
-        active = (t_max[np.newaxis, :] > lower_bounds[:, np.newaxis] + tol * 10) & (
-            t_min[np.newaxis, :] < upper_bounds[:, np.newaxis] - tol * 10
+        active = (t_max[np.newaxis, :] > lower_bounds[:, np.newaxis] + tol / 2) & (
+            t_min[np.newaxis, :] < upper_bounds[:, np.newaxis] - tol / 2
         )
 
         return active
